@@ -38,6 +38,8 @@ type vStore struct {
 	mid atomic.Pointer[func(op *base.VerifOp, actor string) error]
 	// stepFilter limits which operations are scheduling points (nil = all ops of actors).
 	stepFilter atomic.Pointer[func(op *base.VerifOp) bool]
+	// after runs on the operation's goroutine right after the operation returned (and was logged).
+	after atomic.Pointer[func(op *base.VerifOp)]
 }
 
 func newVStore(t testing.TB) *vStore {
@@ -103,13 +105,23 @@ func (s *vStore) midHook(op *base.VerifOp) error {
 }
 
 func (s *vStore) post(op *base.VerifOp) {
-	if !s.logOn.Load() {
+	if s.logOn.Load() {
+		cp := *op
+		s.mu.Lock()
+		s.log = append(s.log, &cp)
+		s.mu.Unlock()
+	}
+	if f := s.after.Load(); f != nil {
+		(*f)(op)
+	}
+}
+
+func (s *vStore) SetAfter(f func(op *base.VerifOp)) {
+	if f == nil {
+		s.after.Store(nil)
 		return
 	}
-	cp := *op
-	s.mu.Lock()
-	s.log = append(s.log, &cp)
-	s.mu.Unlock()
+	s.after.Store(&f)
 }
 
 func (s *vStore) ResetLog() { s.mu.Lock(); s.log = nil; s.mu.Unlock() }
